@@ -127,6 +127,10 @@ type Sibling struct {
 	Frame *ast.FuncDecl
 	// Chain: further functions the type switch continues in (default arm hands on)
 	Chain []*ast.FuncDecl
+	// SwitchFunc: the helper that holds the type switch when Func only calls it (nil: Func itself)
+	SwitchFunc *ast.FuncDecl
+	// Err: the extraction failed (the function lost its overall shape); Cases is empty then
+	Err error
 }
 
 // Ctx carries what the extractors need.
@@ -142,6 +146,9 @@ type Ctx struct {
 	// PosSubst, when set, resolves a use of a local to the expression that defines its value at
 	// that use (see InstallReaching); consulted before Subst.
 	PosSubst func(id *ast.Ident) ast.Expr
+	// CallHook, when set, may replace a call by an expression when printing (a predicate of the
+	// package by the condition under which it returns true)
+	CallHook func(call *ast.CallExpr) ast.Expr
 	// TypeSwitchConds: path conditions include the type test of an enclosing type-switch clause
 	// (ok(x.(T))); set by rules that reason about which dynamic types reach a statement.
 	TypeSwitchConds bool
@@ -310,8 +317,18 @@ func (c *Ctx) ExprStr(e ast.Expr) string {
 		}
 		return nil
 	}
+	if c.CallHook != nil {
+		callHook = func(call *ast.CallExpr) ast.Expr {
+			ex := c.CallHook(call)
+			if ex == nil {
+				return nil
+			}
+			return ex
+		}
+	}
 	cp := deepCopy(e)
 	substHook = nil
+	callHook = nil
 	var buf bytes.Buffer
 	printer.Fprint(&buf, token.NewFileSet(), cp)
 	return strings.TrimSpace(wsRe.ReplaceAllString(buf.String(), " "))
@@ -319,6 +336,11 @@ func (c *Ctx) ExprStr(e ast.Expr) string {
 
 var erase func(id *ast.Ident) bool
 var substHook func(id *ast.Ident) ast.Expr
+var callHook func(call *ast.CallExpr) ast.Expr
+
+// DeepCopy copies an expression applying the hooks that are installed while an expression is
+// being printed (substitutions): for call hooks that build an expression over the call's arguments.
+func DeepCopy(e ast.Expr) ast.Expr { return deepCopy(e).(ast.Expr) }
 
 func deepCopy(n ast.Node) ast.Node {
 	switch n := n.(type) {
@@ -344,6 +366,13 @@ func deepCopy(n ast.Node) ast.Node {
 		}
 		return &ast.SelectorExpr{X: deepCopy(n.X).(ast.Expr), Sel: &ast.Ident{Name: n.Sel.Name}}
 	case *ast.CallExpr:
+		if callHook != nil {
+			// a call of a predicate of the package is printed as the condition it stands for
+			// (already written over copies of the arguments)
+			if ex := callHook(n); ex != nil {
+				return &ast.ParenExpr{X: ex}
+			}
+		}
 		c := &ast.CallExpr{Fun: deepCopy(n.Fun).(ast.Expr)}
 		for _, a := range n.Args {
 			c.Args = append(c.Args, deepCopy(a).(ast.Expr))
@@ -918,6 +947,36 @@ func newSibling(c *Ctx, name string, fd *ast.FuncDecl) (*Sibling, error) {
 	}
 	s := &Sibling{Name: name, Pkg: c.Pkg, Func: fd, Cases: map[string]*Case{}, MultiCases: map[string][]string{}}
 	s.Prologue, s.Switch, s.Epilogue = findTypeSwitch(fd)
+	if s.Switch == nil {
+		// the type switch may live in a helper that the function calls as a statement and that
+		// consists of nothing but the switch (the frame stays behind, the cases move out)
+		for i, st := range fd.Body.List {
+			es, ok := st.(*ast.ExprStmt)
+			if !ok {
+				continue
+			}
+			call, ok := es.X.(*ast.CallExpr)
+			if !ok {
+				continue
+			}
+			fn := c.Callee(call)
+			if fn == nil || fn.Pkg() != c.Pkg.Types {
+				continue
+			}
+			for _, d := range load.AllFuncDecls(c.Pkg) {
+				if c.Info.Defs[d.Name] != types.Object(fn) || d.Body == nil || d == fd {
+					continue
+				}
+				if pro, sw, epi := findTypeSwitch(d); sw != nil && len(pro) == 0 && len(epi) == 0 {
+					s.Prologue, s.Switch, s.Epilogue = fd.Body.List[:i], sw, fd.Body.List[i+1:]
+					s.SwitchFunc = d
+				}
+			}
+			if s.Switch != nil {
+				break
+			}
+		}
+	}
 	if s.Switch == nil {
 		return nil, fmt.Errorf("%s: no top-level type switch in %s", name, fd.Name.Name)
 	}
